@@ -22,6 +22,10 @@ CHECKS = {
                 note='A2, A3; checker lemma as in C03. Untrusted payloads are dictionaries.', design='5 C05'),
     'C06': dict(text='Model checking within bounds, relational: (1) on every accepting path the signed part is not well-formed delegating metadata of another type; (2) after an acceptance the same envelope stripped to the entries that count under the oracle is executed again in the same path and must be accepted too -- so nothing in the attacker-controlled signature map (one junk entry of any JSON kind under a free key is in the template) can turn a rejection into an acceptance.',
                 note='A2, A3; checker lemma as in C03.', design='5 C06'),
+    'C12': dict(text='Model checking within bounds of three obligations: (1) write barrier -- on every path of the three verifiers no store reaches an object reachable from an argument; (2) call-order independence -- sequences of three verify_signable calls over related envelopes (free, possibly coinciding key / signature strings; payloads equal or different; modes independent; and a variant in which the payload object is edited in place between calls) are executed in ONE interpreter state in which module-level state written by an earlier call is visible to later ones, and every verdict must satisfy the single-call soundness/completeness oracle on its own arguments; (3) wrap_as_signable: for payloads of every top-level JSON type with nested containers no mutable object is reachable from both argument and envelope and the copy equals the original.',
+                note='Thread interleavings, hash seed, locale, working directory and import history are NOT solver variables and are not claimed (Python threads are not encoded; the write barrier supports but does not prove schedule independence). id() is modelled as identity of live objects (no address re-use). A2, A3.', design='5 C12'),
+    'C13': dict(text='Model checking within bounds: all 24 public validators of common.py and the two single-signature primitives are executed symbolically on a generic nested value (every JSON kind incl. inf/nan/huge ints at every position to depth 1 (quick) / 2 (thorough), plus a pool of concrete type-confusion values), the three verifiers on their templates with arguments of any kind; on every path the outcome must be a return or an exception of the documented families, and insufficient signatures / undelegated role / type or version mismatch on well-formed arguments must be SignatureError / UnknownRoleError / MetadataVerificationError.',
+                note='Termination is observed only on the bounded templates (all loops range over the inputs). Python values outside the pool (e.g. objects with hostile __eq__), deeper nesting and recursion-limit effects are outside the claim. A2, A3, checker lemma as in C03.', design='5 C13'),
     'C14': dict(text='Model checking within bounds: checkformat_delegating_metadata and all validators it calls are executed symbolically on a template in which every JSON position is symbolic at once (presence, type tag over all JSON kinds incl. binary64, free strings, duplicate keys, extra fields); on each of the ~6 300 (quick) feasible paths z3 shows `accepts <=> Schema` where Schema is transcribed from the property statement, and that rejections are TypeError/ValueError.',
                 note='datetime.strptime is the definition of a well-formed UTC time on both sides (uninterpreted IsoOK). "integer >= 1" = integral numeric value. The third clause (verifiers never hit an internal error on accepted documents) is checked in C13 on the verifier templates.', design='5 C14'),
     'C15': dict(text='Model checking within bounds: each leaf validator (hex string / key / signature / fingerprint, signature entries, key lists) is executed symbolically on an unrolled string over all 0x110000 code points (lengths up to 2 beyond every boundary the grammar mentions), every other JSON kind and a pool of type-confusion values; z3 shows `accepts <=> grammar`, `predicate form == raising form`, injectivity of accepted key spellings, duplicate-freeness by bytes.',
